@@ -1,7 +1,8 @@
 (* C15 — All dictionary back-ends agree, and fuzzy search returns true near matches.
    This file pins the statements; it contains nothing but `exact` (+ non-vacuity Examples). *)
-Require Import Base EditDistance DictModel Fuzzy EditDistanceProofs DictProofs FuzzyProofs.
-From Coq Require Import Permutation Sorting.Sorted.
+Require Import Base EditDistance DictModel Fuzzy C15Suggest EditDistanceProofs DictProofs FuzzyProofs
+  C15SuggestProofs C15CompleteProofs.
+From Coq Require Import ZArith Permutation Sorting.Sorted.
 
 (* ---------- the distance function ---------- *)
 (* edit_distance_min_alloc (after fix 7a7de79) — u8 two-row Wagner–Fischer up to 254 characters, usize rows
@@ -379,6 +380,191 @@ Check C15_driver_shortcuts : (forall s t, lev_fast s t = lev s t) /\
      fst_new is_lower lower ws = mkfst (map (entry_of is_lower lower) ws) ws).
 Print Assumptions C15_driver_shortcuts.
 
+(* ---------- suggest_correct_spelling / order_suggestions (spell/mod.rs) ----------
+   score_suggestion cannot overflow its i32: the distance is a u8, so a score is i32::MAX (empty word) or lies in
+   [-25, 2550] *)
+Theorem C15_score_no_overflow : forall is_common mw x, r_dist x <= 255 ->
+  score_suggestion is_common mw x = i32_max \/ (-25 <= score_suggestion is_common mw x <= 2550)%Z.
+Proof. exact score_range. Qed.
+Check C15_score_no_overflow : forall is_common mw x, r_dist x <= 255 ->
+  score_suggestion is_common mw x = i32_max \/ (-25 <= score_suggestion is_common mw x <= 2550)%Z.
+Print Assumptions C15_score_no_overflow.
+
+(* order_suggestions: the suggestions are the words of the fuzzy matches — all of them, each as often as it was
+   matched (nothing filtered, nothing added) — in THE stable arrangement by score: ascending scores, equal scores in
+   the order fuzzy_match returned them; a stable sort has no other outcome, whatever the algorithm *)
+Theorem C15_order_suggestions : forall is_common mw matches,
+  exists s, order_suggestions is_common mw matches = map r_word s /\
+    stable_sort_of (score_suggestion is_common mw) matches s /\
+    (forall s', stable_sort_of (score_suggestion is_common mw) matches s' -> s' = s) /\
+    Permutation (order_suggestions is_common mw matches) (map r_word matches) /\
+    length (order_suggestions is_common mw matches) = length matches.
+Proof. exact order_suggestions_spec. Qed.
+Check C15_order_suggestions : forall is_common mw matches,
+  exists s, order_suggestions is_common mw matches = map r_word s /\
+    stable_sort_of (score_suggestion is_common mw) matches s /\
+    (forall s', stable_sort_of (score_suggestion is_common mw) matches s' -> s' = s) /\
+    Permutation (order_suggestions is_common mw matches) (map r_word matches) /\
+    length (order_suggestions is_common mw matches) = length matches.
+Print Assumptions C15_order_suggestions.
+
+(* suggest_correct_spelling over ANY dictionary (mutable, FST, merged): ONE fuzzy_match call with the caller's bound
+   and cap, re-ordered; it panics exactly when the search does *)
+Theorem C15_suggest_spec : forall is_common (c : dict_ops) mw lq limit dist,
+  (forall r, d_fuzzy c mw lq dist limit = Ok r ->
+     suggest is_common c mw lq limit dist = Ok (order_suggestions is_common mw r)) /\
+  (forall p, d_fuzzy c mw lq dist limit = Panic p -> suggest is_common c mw lq limit dist = Panic p).
+Proof. exact suggest_spec. Qed.
+Check C15_suggest_spec : forall is_common (c : dict_ops) mw lq limit dist,
+  (forall r, d_fuzzy c mw lq dist limit = Ok r ->
+     suggest is_common c mw lq limit dist = Ok (order_suggestions is_common mw r)) /\
+  (forall p, d_fuzzy c mw lq dist limit = Panic p -> suggest is_common c mw lq limit dist = Panic p).
+Print Assumptions C15_suggest_spec.
+
+(* over a MutableDictionary: never panics; every suggestion is a non-empty dictionary word within the bound of the
+   normalised query or of its lower-case form (for bounds <= 254: F19b); no word twice; the cap holds *)
+Theorem C15_suggest_mutable : forall is_common is_lower lower dbg m mw lq limit dist,
+  wm_wf is_lower lower m ->
+  let qn := normalized mw in
+  let ql := to_lower is_lower lower qn in
+  exists r sug,
+    mut_fuzzy is_lower lower dbg m mw dist limit = Ok r /\
+    suggest is_common (mut_ops is_lower lower dbg m) mw lq limit dist = Ok sug /\
+    Permutation sug (map r_word r) /\ length sug <= limit /\ NoDup sug /\
+    forall w, In w sug ->
+      (exists e, In (word_id is_lower lower w, e) m /\ e_canon e = w) /\ w <> [] /\
+      (dist <= 254 -> lev qn w <= dist \/ lev ql w <= dist).
+Proof. exact suggest_mutable. Qed.
+Check C15_suggest_mutable : forall is_common is_lower lower dbg m mw lq limit dist,
+  wm_wf is_lower lower m ->
+  let qn := normalized mw in
+  let ql := to_lower is_lower lower qn in
+  exists r sug,
+    mut_fuzzy is_lower lower dbg m mw dist limit = Ok r /\
+    suggest is_common (mut_ops is_lower lower dbg m) mw lq limit dist = Ok sug /\
+    Permutation sug (map r_word r) /\ length sug <= limit /\ NoDup sug /\
+    forall w, In w sug ->
+      (exists e, In (word_id is_lower lower w, e) m /\ e_canon e = w) /\ w <> [] /\
+      (dist <= 254 -> lev qn w <= dist \/ lev ql w <= dist).
+Print Assumptions C15_suggest_mutable.
+
+(* words AND order of the suggestions are a function of (word, SET of dictionary entries): no dependence on the
+   iteration order of the hash map, on the build mode or on the (unused) lower-case string *)
+Theorem C15_suggest_mutable_deterministic : forall is_common is_lower lower dbg dbg' m m' mw lq lq' limit dist,
+  wm_wf is_lower lower m -> Permutation m m' ->
+  suggest is_common (mut_ops is_lower lower dbg m) mw lq limit dist
+  = suggest is_common (mut_ops is_lower lower dbg' m') mw lq' limit dist.
+Proof. exact suggest_mutable_deterministic. Qed.
+Check C15_suggest_mutable_deterministic : forall is_common is_lower lower dbg dbg' m m' mw lq lq' limit dist,
+  wm_wf is_lower lower m -> Permutation m m' ->
+  suggest is_common (mut_ops is_lower lower dbg m) mw lq limit dist
+  = suggest is_common (mut_ops is_lower lower dbg' m') mw lq' limit dist.
+Print Assumptions C15_suggest_mutable_deterministic.
+
+(* FstDictionary::from(MutableDictionary) — word map AND fuzzy index — does not depend on the iteration order of the
+   hash map it is built from (the spellings of a word map are pairwise distinct, so the sort by spelling has one
+   outcome); hence neither do its suggestions *)
+Theorem C15_fst_of_mutable_deterministic : forall is_common is_lower lower stream m m' mw lq limit dist,
+  wm_wf is_lower lower m -> Permutation m m' ->
+  fst_of_mutable is_lower lower m = fst_of_mutable is_lower lower m' /\
+  suggest is_common (fst_ops is_lower lower stream (fst_of_mutable is_lower lower m)) mw lq limit dist
+  = suggest is_common (fst_ops is_lower lower stream (fst_of_mutable is_lower lower m')) mw lq limit dist.
+Proof. exact fst_of_mutable_deterministic. Qed.
+Check C15_fst_of_mutable_deterministic : forall is_common is_lower lower stream m m' mw lq limit dist,
+  wm_wf is_lower lower m -> Permutation m m' ->
+  fst_of_mutable is_lower lower m = fst_of_mutable is_lower lower m' /\
+  suggest is_common (fst_ops is_lower lower stream (fst_of_mutable is_lower lower m)) mw lq limit dist
+  = suggest is_common (fst_ops is_lower lower stream (fst_of_mutable is_lower lower m')) mw lq limit dist.
+Print Assumptions C15_fst_of_mutable_deterministic.
+
+(* over an FstDictionary, under the stream contract: never panics; every suggestion is a word of the FST's list within
+   the bound of the normalised query or of String::to_lowercase of it; no word twice; the cap holds *)
+Theorem C15_suggest_fst : forall is_common is_lower lower stream (f : fst_dict) mw lq limit dist,
+  (forall x, stream (f_words f) x dist = spec_stream lev (f_words f) x dist) ->
+  exists r sug,
+    fst_fuzzy stream f mw lq dist limit = Ok r /\
+    suggest is_common (fst_ops is_lower lower stream f) mw lq limit dist = Ok sug /\
+    Permutation sug (map r_word r) /\ length sug <= limit /\ NoDup sug /\
+    forall w, In w sug ->
+      In w (map fst (f_words f)) /\ (lev (normalized mw) w <= dist \/ lev lq w <= dist).
+Proof. exact suggest_fst. Qed.
+Check C15_suggest_fst : forall is_common is_lower lower stream (f : fst_dict) mw lq limit dist,
+  (forall x, stream (f_words f) x dist = spec_stream lev (f_words f) x dist) ->
+  exists r sug,
+    fst_fuzzy stream f mw lq dist limit = Ok r /\
+    suggest is_common (fst_ops is_lower lower stream f) mw lq limit dist = Ok sug /\
+    Permutation sug (map r_word r) /\ length sug <= limit /\ NoDup sug /\
+    forall w, In w sug ->
+      In w (map fst (f_words f)) /\ (lev (normalized mw) w <= dist \/ lev lq w <= dist).
+Print Assumptions C15_suggest_fst.
+
+(* ---------- the contract of fst::Map::search_with_state + levenshtein_automata, declaratively ----------
+   indices strictly increasing (the map's key order, each key once), every item a word within the bound with its exact
+   distance, every word within the bound streamed — this is what the harness monitors against brute force, and it is
+   EQUIVALENT to the executable `spec_stream lev` the FST theorems are stated with *)
+Theorem C15_stream_contract_declarative : forall words x d s,
+  stream_contract words x d s <-> s = spec_stream lev words x d.
+Proof. exact stream_contract_iff. Qed.
+Check C15_stream_contract_declarative : forall words x d s,
+  stream_contract words x d s <-> s = spec_stream lev words x d.
+Print Assumptions C15_stream_contract_declarative.
+
+(* ---------- "for lower-case queries no word within the bound is missed" ----------
+   MutableDictionary: premise = the normalised query is its own CharStringExt::to_lower; the length window drops no
+   NON-EMPTY word within the bound (C15_lev_len); covered = returned at no more than its distance, or the result is
+   full (k entries) of results at least as close *)
+Theorem C15_mutable_fuzzy_complete : forall is_lower lower m q d k r,
+  wm_wf is_lower lower m -> mut_fuzzy_outcome is_lower lower m q d k r ->
+  to_lower is_lower lower (normalized q) = normalized q ->
+  forall w, In w (mut_words m) -> w <> [] -> lev (normalized q) w <= d ->
+    covers r k w (lev (normalized q) w).
+Proof. exact mut_fuzzy_complete. Qed.
+Check C15_mutable_fuzzy_complete : forall is_lower lower m q d k r,
+  wm_wf is_lower lower m -> mut_fuzzy_outcome is_lower lower m q d k r ->
+  to_lower is_lower lower (normalized q) = normalized q ->
+  forall w, In w (mut_words m) -> w <> [] -> lev (normalized q) w <= d ->
+    covers r k w (lev (normalized q) w).
+Print Assumptions C15_mutable_fuzzy_complete.
+
+(* FstDictionary::new(ws) for every word list, under the stream contract; premise = String::to_lowercase of the
+   normalised query is the normalised query; ranges over words_iter *)
+Theorem C15_fst_answers_completely : forall is_lower lower stream ws q d k,
+  let f := fst_new is_lower lower ws in
+  (forall x, stream (f_words f) x d = spec_stream lev (f_words f) x d) ->
+  answers_completely (fst_ops is_lower lower stream f) q (normalized q) d k.
+Proof. exact fst_answers_completely. Qed.
+Check C15_fst_answers_completely : forall is_lower lower stream ws q d k,
+  let f := fst_new is_lower lower ws in
+  (forall x, stream (f_words f) x d = spec_stream lev (f_words f) x d) ->
+  answers_completely (fst_ops is_lower lower stream f) q (normalized q) d k.
+Print Assumptions C15_fst_answers_completely.
+
+(* MergedDictionary = union: if every child answers completely (no panic, no non-empty word of its words_iter within
+   the bound missed up to the cap) so does the merged dictionary for the words of ALL children — compositional, the
+   children may be merged dictionaries themselves *)
+Theorem C15_merged_answers_completely : forall cs q lq d k,
+  Forall (fun c => answers_completely c q lq d k) cs ->
+  answers_completely (merged_ops cs) q lq d k.
+Proof. exact merged_answers_completely. Qed.
+Check C15_merged_answers_completely : forall cs q lq d k,
+  Forall (fun c => answers_completely c q lq d k) cs ->
+  answers_completely (merged_ops cs) q lq d k.
+Print Assumptions C15_merged_answers_completely.
+
+(* in particular over MutableDictionary children, with the exact premises *)
+Theorem C15_merged_mutable_fuzzy_complete : forall is_lower lower dbg ms q lq d k,
+  Forall (wm_wf is_lower lower) ms -> to_lower is_lower lower (normalized q) = normalized q ->
+  exists r, merged_fuzzy (map (mut_ops is_lower lower dbg) ms) q lq d k = Ok r /\
+    forall m k0 e, In m ms -> In (k0, e) m -> e_canon e <> [] -> lev (normalized q) (e_canon e) <= d ->
+      covers r k (e_canon e) (lev (normalized q) (e_canon e)).
+Proof. exact merged_mutable_fuzzy_complete. Qed.
+Check C15_merged_mutable_fuzzy_complete : forall is_lower lower dbg ms q lq d k,
+  Forall (wm_wf is_lower lower) ms -> to_lower is_lower lower (normalized q) = normalized q ->
+  exists r, merged_fuzzy (map (mut_ops is_lower lower dbg) ms) q lq d k = Ok r /\
+    forall m k0 e, In m ms -> In (k0, e) m -> e_canon e <> [] -> lev (normalized q) (e_canon e) <= d ->
+      covers r k (e_canon e) (lev (normalized q) (e_canon e)).
+Print Assumptions C15_merged_mutable_fuzzy_complete.
+
 (* ---------- non-vacuity ---------- *)
 Example C15_wf_nonvacuous :
   let kitten := [107; 105; 116; 116; 101; 110]%N in
@@ -458,3 +644,42 @@ Example C15_fst_new_agrees_nonvacuous :
   fst_exact ascii_is_lower ascii_lower (fst_new ascii_is_lower ascii_lower [(w_abc, 1); (w_ab, 2)]) w_AB = false /\
   fst_canon ascii_is_lower ascii_lower (fst_new ascii_is_lower ascii_lower [(w_abc, 1); (w_ab, 2)]) w_AB = Some w_ab.
 Proof. exact fst_new_agrees_example. Qed.
+
+(* ---------- non-vacuity of the deepening theorems ---------- *)
+(* "ths" against {this, thus, the, th's, tis, as}: the first-letter, plural-s, `common` (odd tags) and
+   one-apostrophe heuristics, a stable tie ("th's" stays in front of "this", "the" in front of "thus"), the cap taken
+   by the SEARCH (limit 2 keeps the two (distance, word)-smallest matches, not the two best scores), empty words *)
+Example C15_suggest_nonvacuous :
+  let m := mut_extend ascii_is_lower ascii_lower []
+             [(w_this, 1); (w_thus, 2); (w_the, 1); (w_th's, 2); (w_tis, 2); (w_as, 2)] in
+  mut_fuzzy ascii_is_lower ascii_lower true m w_ths 1 10
+    = Ok [mkfres w_th's 1 2; mkfres w_the 1 1; mkfres w_this 1 1; mkfres w_thus 1 2; mkfres w_tis 1 2] /\
+  map (score_suggestion odd_common w_ths)
+      [mkfres w_th's 1 2; mkfres w_the 1 1; mkfres w_this 1 1; mkfres w_thus 1 2; mkfres w_tis 1 2]
+    = [-10; -5; -10; -5; -5]%Z /\
+  suggest odd_common (mut_ops ascii_is_lower ascii_lower true m) w_ths w_ths 10 1
+    = Ok [w_th's; w_this; w_the; w_thus; w_tis] /\
+  suggest odd_common (mut_ops ascii_is_lower ascii_lower true m) w_ths w_ths 2 1 = Ok [w_th's; w_the] /\
+  score_suggestion odd_common [] (mkfres w_the 1 1) = i32_max /\
+  score_suggestion odd_common w_ths (mkfres [] 3 1) = i32_max.
+Proof. exact suggest_example. Qed.
+
+Example C15_stream_contract_nonvacuous :
+  let ws := [(w_ab, 2); (w_abc, 1); ([98%N], 3)] in
+  stream_contract ws w_ab 1 [(0, 0); (1, 1); (2, 1)] /\
+  ~ stream_contract ws w_ab 1 [(0, 0); (2, 1)] /\
+  ~ stream_contract ws w_ab 1 [(0, 0); (1, 0); (2, 1)].
+Proof. exact stream_contract_example. Qed.
+
+Example C15_complete_nonvacuous :
+  let m := mut_extend ascii_is_lower ascii_lower [] [(w_abc, 1); ([98%N], 3)] in
+  let ws := [(w_ab, 2); (w_AB, 4)] in
+  let q := [97; 98; 100]%N in
+  to_lower ascii_is_lower ascii_lower (normalized q) = normalized q /\
+  wm_wf ascii_is_lower ascii_lower m /\
+  merged_fuzzy [mut_ops ascii_is_lower ascii_lower true m;
+                fst_ops ascii_is_lower ascii_lower (spec_stream lev) (fst_new ascii_is_lower ascii_lower ws)]
+               q (normalized q) 1 1 = Ok [mkfres w_abc 1 1] /\
+  lev (normalized q) w_ab = 1 /\ lev (normalized q) w_abc = 1 /\
+  covers [mkfres w_abc 1 1] 1 w_ab 1.
+Proof. exact complete_example. Qed.
